@@ -683,6 +683,9 @@ class Flatten(EnvironmentFilter):
             if has_actions:
                 new['actions'] = list(islice(flat_actions_iter,len(old['actions'])))
 
+                if 'action' in old and old['action'] in old['actions']:
+                    new['action'] = new['actions'][old['actions'].index(old['action'])]
+
                 if targets and new['actions'] != old['actions']:
                     for target in targets:
                         new[target] = DiscreteReward(new['actions'],list(map(old[target],old['actions'])))
